@@ -29,12 +29,14 @@ def build(tier, seed):
             for lim in limits:
                 if tier == "quick" and lim >= 1 and "Aminstar" in ty and sched == "flooding":
                     continue  # symbolic argmin => symbolic message destinations: > 8 GB with two decodes (thorough tier)
+                if tier == "thorough" and name != "chain2x3" and lim != 1:
+                    continue  # the larger matrices at limit 1 only
                 hn = "c10_havoc_%s_%s_l%d" % (impl, name, lim)
                 w = 2.0 if lim == 0 else (12.0 if kind == "i8" else 25.0) * lim
                 items.append((Harness(hn, {"pair": "%s::Decoder<%s>" % (sched, ty), "matrix": name, "iteration_limit": lim,
                                             "input": "arbitrary pre-state (every LLR/message value cell symbolic) + %d LLRs from s*2^-e" % n,
                                             "oracle": "same (verdict, word, iterations) as a fresh decoder"}, w,
-                                      stubs="TABLE" if kind == "i8" else "SURROGATE"),
+                                      stubs="TABLE" if kind == "i8" else "SURROGATE", neighbourhood=True),
                               "crate::%s!(%s, %s, %s, h_%s, %d, %d, %d);" % (mac, hn, stubs, ty, name, n, lim, max(n, len(rows), lim) + 3)))
     # --- item 2: real two-call history, second call with zero iterations
     limas = [1] if tier == "quick" else [0, 1]
@@ -48,7 +50,7 @@ def build(tier, seed):
                 hn = "c10_zero_%s_%s_a%d" % (impl, name, la)
                 items.append((Harness(hn, {"implementation": impl, "matrix": name, "history": "decode(A, %d); decode(B, 0)" % la,
                                             "input": "A and B: %d LLRs each from s*2^-e" % n, "oracle": "second call == fresh decoder's decode(B, 0)"},
-                                      (8.0 if kind == "i8" else 15.0), stubs="TABLE" if kind == "i8" else "SURROGATE"),
+                                      (8.0 if kind == "i8" else 15.0), stubs="TABLE" if kind == "i8" else "SURROGATE", neighbourhood=True),
                               "crate::c10_zero_iter!(%s, %s, %s, %s, h_%s, %d, %d, %d);" % (hn, stubs, sched, ty, name, n, la, max(n, len(rows), la) + 3)))
     # --- item 1: arithmetic scratch
     seqs_all = [(0, 0), (1, 1), (1, 0), (0, 1)]
@@ -69,14 +71,14 @@ def build(tier, seed):
             if kind == "i8" and (t["jones"] or t["deg1"]):
                 continue
         else:
-            seqs, degs = seqs_all, [(3, 2), (2, 3), (4, 2)]
+            seqs, degs = seqs_all, [(3, 2), (2, 3)]
         for (oa, ob) in seqs:
             for (da, db) in degs:
                 hn = "c10_scratch_%s_%d%d_%dto%d" % (n, oa, ob, da, db)
                 opn = {0: "send_check_messages", 1: "update_check_messages_and_vars"}
                 items.append((Harness(hn, {"type": n, "history": "%s(degree %d) then %s(degree %d)" % (opn[oa], da, opn[ob], db),
                                             "input": "all message/LLR values symbolic (8-bit: full range; float: s/8, |s|<=127)", "oracle": "second call emits what a fresh arithmetic object emits"},
-                                      6.0 if kind == "i8" else 12.0, stubs="TABLE" if kind == "i8" else "SURROGATE"),
+                                      6.0 if kind == "i8" else 12.0, stubs="TABLE" if kind == "i8" else "SURROGATE", neighbourhood=True),
                               "crate::c10_scratch!(%s, %s, %s, %d, %d, %d, %d, %d);" % (hn, stubs, n, oa, ob, da, db, max(da, db) + 3)))
     meta = {
         "functions": ["flooding::Decoder::{new, decode, initialize, process_*}", "horizontal_layered::Decoder::{new, decode, initialize, process_check_nodes}", "verif_havoc hooks (state overwrite only)",
@@ -89,4 +91,4 @@ def build(tier, seed):
         "stubs": ["TABLE (8-bit)", "SURROGATE (float)"],
         "assumptions": ["item 3 is inductive: an arbitrary pre-state covers call histories of any length; scratch vectors inside the arithmetic object are covered by item 1 instead (private fields)"],
     }
-    return {"prelude": pre, "items": items, "meta": meta, "nshards": 14, "timeout": 600 if tier == "quick" else 2400}
+    return {"prelude": pre, "items": items, "meta": meta, "nshards": 14 if tier == "quick" else 10, "timeout": 600 if tier == "quick" else 3600, "rss_cap_gb": 8 if tier == "quick" else 14}
